@@ -15,6 +15,8 @@ FILES = [
     "lerax/wrapper/transform_action.py", "lerax/wrapper/transform_observation.py", "lerax/wrapper/transform_reward.py", "lerax/wrapper/misc.py",
     "lerax/wrapper/utils.py", "lerax/wrapper/base_wrapper.py", "lerax/compatibility/gym.py", "lerax/compatibility/gymnax.py", "lerax/env/base_env.py",
     "lerax/space/box.py", "lerax/space/discrete.py", "lerax/space/multi_binary.py", "lerax/space/multi_discrete.py", "lerax/space/dict.py", "lerax/space/tuple.py",
+    "lerax/distribution/base_distribution.py", "lerax/distribution/categorical.py", "lerax/distribution/bernoulli.py", "lerax/distribution/multi_categorical.py",
+    "lerax/distribution/squashed_normal.py", "lerax/distribution/squashed_multivariate_normal.py", "lerax/policy/actor.py", "lerax/policy/q/base_q.py", "lerax/policy/sac/mlp.py",
 ]
 PROPS_OF = {
     "lerax/buffer/rollout.py": ["C03", "C09"], "lerax/buffer/replay.py": ["C06"], "lerax/buffer/base_buffer.py": ["C09", "C06"],
@@ -27,6 +29,9 @@ PROPS_OF = {
     "lerax/compatibility/gym.py": ["C13", "C14", "C01"], "lerax/compatibility/gymnax.py": ["C13"], "lerax/env/base_env.py": ["C01", "C13"],
     "lerax/space/box.py": ["C14"], "lerax/space/discrete.py": ["C14"], "lerax/space/multi_binary.py": ["C14"], "lerax/space/multi_discrete.py": ["C14"],
     "lerax/space/dict.py": ["C14"], "lerax/space/tuple.py": ["C14"],
+    "lerax/distribution/base_distribution.py": ["C15"], "lerax/distribution/categorical.py": ["C15", "C16"], "lerax/distribution/bernoulli.py": ["C15", "C16"],
+    "lerax/distribution/multi_categorical.py": ["C15", "C16"], "lerax/distribution/squashed_normal.py": ["C15"], "lerax/distribution/squashed_multivariate_normal.py": ["C15"],
+    "lerax/policy/actor.py": ["C16"], "lerax/policy/q/base_q.py": ["C16"], "lerax/policy/sac/mlp.py": ["C16"],
 }
 
 
